@@ -152,7 +152,7 @@ def replay(case):
     if case["kind"] == "declared-data":
         d = decl_case(case["ti"], case["ci"], case["mode"])
         return [(dict(oracle="declared-data", field="differs-from-uncached"), d)] if d else []
-    if case["kind"] == "cache-history":
+    if case["kind"] in ("cache-history", "cache-deep-path"):
         return cachebfs.replay(case)
     prog = [tuple(i) for i in case["prog"]]
     ib, bb, ways, kind, policy = case["cache"]
@@ -218,6 +218,7 @@ def run(ctx):
               note="data segments with every declaration kind, loaded element by element and stored to, cached vs. uncached")
     ctx.require("declared-data-through-a-cache")
     ctx.require("cache-eviction", "cache-fill", "rejected")
+    cachebfs.deep_paths(ctx, WANT)
     for L in range(1, (3 if ctx.quick else 4) + 1):
         t0 = time.time()
         part = pmap(prog_shard, [(L, f, 6) for f in range(len(mem_alphabet()))])
